@@ -3,15 +3,16 @@
 use crate::gen::*;
 use crate::loops::{err_class, loop_coq, loop_json, make_loop};
 use crate::util::*;
-use geometry3d::{Loop3D, Point3D, Polygon3D, Vector3D};
+use geometry3d::{Loop3D, Point3D, Polygon3D, Segment3D, Vector3D};
 use std::panic::AssertUnwindSafe as AUS;
 
 /// error classes of polygon3d.rs / the deserialisers (50 normals not parallel, 51 vertex not inside,
-/// 52 encloses a hole, 60 "array of numbers" expected), else the loop classes
+/// 52 encloses a hole, 53 inner-loop index out of bounds, 60 "array of numbers" expected), else the loop classes
 pub fn perr_class(msg: &str) -> u32 {
     if msg.contains("parallel normals") { 50 }
     else if msg.contains("not inside the polygon") { 51 }
     else if msg.contains("inside the new hole") { 52 }
+    else if msg.contains("retrieve inner loop") { 53 }
     else if msg.contains("array of numbers") { 60 }
     else { err_class(msg) }
 }
@@ -300,44 +301,269 @@ pub fn replay_c11(args: &[String]) {
 #[derive(Clone)]
 struct HoleSpec { c: P2, rad: f64, fac: Vec<f64>, phase: f64, ccw: bool, start: usize }
 
-fn c12_emit(sink: &mut Sink, note: &str, outer: &Loop3D, holes: &[Loop3D]) -> bool {
-    let mut pg = match catch(AUS(|| Polygon3D::new(outer.clone()))) { Ok(Ok(p)) => p, _ => return false };
-    for h in holes { match catch(AUS(|| pg.cut_hole(h.clone()))) { Ok(Ok(())) => {}, _ => return false } }
+/// what a merge case was built from, for the operation queries that follow it
+struct C12Built { pg: Polygon3D, merged: Option<Loop3D>, closed: Option<Loop3D> }
+fn c12_emit(sink: &mut Sink, note: &str, outer: &Loop3D, holes: &[Loop3D]) -> Option<C12Built> {
+    let mut pg = match catch(AUS(|| Polygon3D::new(outer.clone()))) { Ok(Ok(p)) => p, _ => return None };
+    for h in holes { match catch(AUS(|| pg.cut_hole(h.clone()))) { Ok(Ok(())) => {}, _ => return None } }
     let n = pg.normal();
     let merged = catch(AUS(|| pg.get_closed_loop()));
+    let mut built = C12Built { pg: pg.clone(), merged: None, closed: None };
     let (mo, mc, mj, co, cc, cj) = match merged {
         Err(_) => (99u32, "noloop".to_string(), "null".to_string(), 99u32, "noloop".to_string(), "null".to_string()),
         Ok(m) => {
             let mut cl = m.clone();
             let o = match catch(AUS(|| cl.close())) { Ok(Ok(())) => 0, Ok(Err(e)) => err_class(&e), Err(_) => 99 };
-            (0, loop_coq(&m), loop_json(&m), o, loop_coq(&cl), loop_json(&cl))
+            let r = (0, loop_coq(&m), loop_json(&m), o, loop_coq(&cl), loop_json(&cl));
+            if o == 0 { built.closed = Some(cl); }
+            built.merged = Some(m);
+            r
         }
     };
     let hc: Vec<String> = holes.iter().map(loop_coq).collect();
     let hj: Vec<String> = holes.iter().map(loop_json).collect();
     sink.push(
-        format!("({}, {}, {}, ({}%N, {}), ({}%N, {}))", loop_coq(outer), loops_coq(&hc), sfs(&[pg.area(), n.x, n.y, n.z]), mo, mc, co, cc),
-        format!("{{\"note\":\"{}\",\"outer\":{},\"holes\":[{}],\"area\":{},\"n\":{},\"mo\":{},\"merged\":{},\"co\":{},\"closed\":{}}}",
+        format!("CM ({}, {}, {}, ({}%N, {}), ({}%N, {}))", loop_coq(outer), loops_coq(&hc), sfs(&[pg.area(), n.x, n.y, n.z]), mo, mc, co, cc),
+        format!("{{\"kind\":\"merge\",\"note\":\"{}\",\"outer\":{},\"holes\":[{}],\"area\":{},\"n\":{},\"mo\":{},\"merged\":{},\"co\":{},\"closed\":{}}}",
                 note, loop_json(outer), hj.join(","), jf(pg.area()), jfs(&[n.x, n.y, n.z]), mo, mj, co, cj),
     );
-    true
+    Some(built)
+}
+
+// -------------------------------------------------------------------------------------
+// C12 (continued): the remaining public operations of Loop3D / Polygon3D, called directly on the loops and polygons of a
+// merge case and on loops derived from them through the public API (remove / open / unfinished outlines).
+// One "ops" case = one group of calls on a list of subject loops (outer first, then the holes when the polygon is involved):
+//   op 1 Loop3D::is_diagonal(seg)      2 Loop3D::sanitize()            3 Loop3D::contains_segment(seg)
+//      4 Polygon3D::contains_segment    5 Loop3D::perimeter()           6 Loop3D::area()
+//      7 Loop3D::is_coplanar(p)         8 Loop3D::remove(i)             9 Loop3D index [i]       10 Polygon3D::inner(i)
+// outcome class: booleans 0 false / 1 true; values 0 = Ok; 100 + class = Err; 99 = panic.
+// -------------------------------------------------------------------------------------
+struct Q { op: u32, subj: usize, idx: usize, args: Vec<Float>, lab: &'static str }
+const OP_NAMES: [&str; 11] = ["?", "is_diagonal", "sanitize", "contains_segment", "poly_contains_segment", "perimeter", "area", "is_coplanar", "remove", "index", "inner"];
+fn bclass(r: Result<Result<bool, String>, String>) -> u32 { match r { Ok(Ok(false)) => 0, Ok(Ok(true)) => 1, Ok(Err(m)) => 100 + perr_class(&m), Err(_) => 99 } }
+fn seg_of(a: &[Float]) -> Segment3D { Segment3D::new(Point3D::new(a[0], a[1], a[2]), Point3D::new(a[3], a[4], a[5])) }
+/// runs one query on the real objects: (class, floats, loop)
+fn run_query(loops: &[Loop3D], pg: Option<&Polygon3D>, q: &Q) -> (u32, Vec<Float>, Option<Loop3D>) {
+    let l = &loops[q.subj.min(loops.len() - 1)];
+    let a = &q.args;
+    match q.op {
+        1 => (bclass(catch(AUS(|| l.is_diagonal(seg_of(a))))), vec![], None),
+        2 => match catch(AUS(|| l.clone().sanitize())) { Ok(Ok(n)) => (0, vec![], Some(n)), Ok(Err(m)) => (100 + perr_class(&m), vec![], None), Err(_) => (99, vec![], None) },
+        3 => (bclass(catch(AUS(|| Ok(l.contains_segment(&seg_of(a)))))), vec![], None),
+        4 => (bclass(catch(AUS(|| Ok(pg.unwrap().contains_segment(&seg_of(a)))))), vec![], None),
+        5 | 6 => match catch(AUS(|| if q.op == 5 { l.perimeter() } else { l.area() })) { Ok(Ok(x)) => (0, vec![x], None), Ok(Err(m)) => (100 + perr_class(&m), vec![], None), Err(_) => (99, vec![], None) },
+        7 => (bclass(catch(AUS(|| l.is_coplanar(Point3D::new(a[0], a[1], a[2]))))), vec![], None),
+        8 => { let mut c = l.clone(); match catch(AUS(|| c.remove(q.idx))) { Ok(()) => (0, vec![], Some(c)), Err(_) => (99, vec![], None) } }
+        9 => match catch(AUS(|| l[q.idx])) { Ok(p) => (0, vec![p.x, p.y, p.z], None), Err(_) => (99, vec![], None) },
+        _ => match catch(AUS(|| pg.unwrap().inner(q.idx).map(|x| x.clone()))) { Ok(Ok(x)) => (0, vec![], Some(x)), Ok(Err(m)) => (100 + perr_class(&m), vec![], None), Err(_) => (99, vec![], None) },
+    }
+}
+fn sfl_typed(x: &[Float]) -> String { if x.is_empty() { "nosf".to_string() } else { sfs(x) } }
+/// emits one "ops" case: the subject loops, `nh` (> 0: loops[0] is the outer loop and loops[1..=nh] the holes of the polygon `pg`), the queries
+fn ops_emit(sink: &mut Sink, group: &str, note: &str, loops: &[Loop3D], labels: &[String], pg: Option<&Polygon3D>, qs: &[Q]) {
+    if qs.is_empty() || loops.is_empty() { return; }
+    let (nh, an) = match pg { Some(p) => { let n = p.normal(); (p.n_inner_loops(), vec![p.area(), n.x, n.y, n.z]) } None => (0, vec![]) };
+    let mut cq = vec![]; let mut jq = vec![];
+    for q in qs {
+        let (cls, efl, el) = run_query(loops, pg, q);
+        cq.push(format!("({}%N, {}%N, {}%N, {}, {}%N, {}, {})", q.op, q.subj, q.idx, sfl_typed(&q.args), cls, sfl_typed(&efl), match &el { Some(l) => loop_coq(l), None => "noloop".to_string() }));
+        jq.push(format!("{{\"op\":{},\"name\":\"{}\",\"subj\":{},\"idx\":{},\"args\":{},\"lab\":\"{}\",\"class\":{},\"efl\":{},\"eloop\":{}}}",
+                        q.op, OP_NAMES[q.op as usize], q.subj, q.idx, jfs(&q.args), q.lab, cls, jfs(&efl), match &el { Some(l) => loop_json(l), None => "null".to_string() }));
+    }
+    let lc: Vec<String> = loops.iter().map(loop_coq).collect();
+    let lj: Vec<String> = loops.iter().map(loop_json).collect();
+    let lb: Vec<String> = labels.iter().map(|x| format!("\"{}\"", x)).collect();
+    sink.push(
+        format!("CQ {}%N {} {} [{}]", if pg.is_some() { nh + 1 } else { 0 }, sfl_typed(&an), loops_coq(&lc), cq.join("; ")),
+        format!("{{\"kind\":\"ops\",\"group\":\"{}\",\"note\":\"{}\",\"poly\":{},\"nh\":{},\"an\":{},\"loops\":[{}],\"labels\":[{}],\"qs\":[{}]}}",
+                group, note, pg.is_some(), nh, jfs(&an), lj.join(","), lb.join(","), jq.join(",")),
+    );
+}
+fn pf(p: Point3D) -> [Float; 3] { [p.x, p.y, p.z] }
+fn seg_args(a: Point3D, b: Point3D) -> Vec<Float> { vec![a.x, a.y, a.z, b.x, b.y, b.z] }
+fn lerp3(a: Point3D, b: Point3D, t: f64) -> Point3D {
+    Point3D::new((a.x as f64 + (b.x as f64 - a.x as f64) * t) as Float, (a.y as f64 + (b.y as f64 - a.y as f64) * t) as Float, (a.z as f64 + (b.z as f64 - a.z as f64) * t) as Float)
+}
+fn shift3(a: Point3D, n: Vector3D, h: f64) -> Point3D {
+    Point3D::new((a.x as f64 + n.x as f64 * h) as Float, (a.y as f64 + n.y as f64 * h) as Float, (a.z as f64 + n.z as f64 * h) as Float)
+}
+fn dist3(a: Point3D, b: Point3D) -> f64 { (((a.x - b.x) as f64).powi(2) + ((a.y - b.y) as f64).powi(2) + ((a.z - b.z) as f64).powi(2)).sqrt() }
+
+/// chords of one subject loop for is_diagonal
+fn diagonal_queries(x: &mut Rng, subj: usize, l: &Loop3D, nrm: Vector3D, out: &mut Vec<Q>) {
+    let v = l.vertices(); let n = v.len();
+    if n < 3 { out.push(Q { op: 1, subj, idx: 0, args: vec![0.0, 0.0, 0.0, 1.0, 0.0, 0.0], lab: "few-vertices" }); return; }
+    let at = |i: usize| v[i % n];
+    // the chord of a corner, as from_polygon asks (v[i], v[i+2])
+    for _ in 0..2 { let i = x.below(n as u64) as usize; out.push(Q { op: 1, subj, idx: 0, args: seg_args(at(i), at(i + 2)), lab: "corner-chord" }); }
+    // any two vertices
+    for _ in 0..2 { let i = x.below(n as u64) as usize; let j = x.below(n as u64) as usize; out.push(Q { op: 1, subj, idx: 0, args: seg_args(at(i), at(j)), lab: if i == j { "same-vertex" } else { "vertex-pair" } }); }
+    // along an edge: the edge itself, half of it, beyond its end, reversed
+    { let i = x.below(n as u64) as usize; let (a, b) = (at(i), at(i + 1));
+      let (args, lab): (Vec<Float>, &'static str) = match x.below(4) { 0 => (seg_args(a, b), "edge"), 1 => (seg_args(b, a), "edge-reversed"), 2 => (seg_args(a, lerp3(a, b, 0.5)), "half-edge"), _ => (seg_args(a, lerp3(a, b, 1.5)), "edge-overshoot") };
+      out.push(Q { op: 1, subj, idx: 0, args, lab }); }
+    // very short chords, on both sides of the 1e-5 threshold
+    { let i = x.below(n as u64) as usize; let j = (i + 2 + x.below((n - 2).max(1) as u64) as usize) % n; let (a, b) = (at(i), at(j)); let d = dist3(a, b);
+      if d > 1e-3 { let len = *x.pick(&[0.5e-5, 0.99e-5, 1.01e-5, 2e-5, 1e-4]); out.push(Q { op: 1, subj, idx: 0, args: seg_args(a, lerp3(a, b, len / d)), lab: "short" }); } }
+    // chords from a vertex that occurs twice (the bridge vertices of a merged outline), and the zero-length chord between its two copies
+    let dup: Vec<(usize, usize)> = (0..n).flat_map(|i| (i + 1..n).map(move |j| (i, j))).filter(|(i, j)| pf(v[*i]) == pf(v[*j])).collect();
+    if !dup.is_empty() {
+        let (i, j) = *x.pick(&dup);
+        let k = x.below(n as u64) as usize;
+        out.push(Q { op: 1, subj, idx: 0, args: seg_args(at(i), at(k)), lab: "from-bridge-vertex" });
+        out.push(Q { op: 1, subj, idx: 0, args: seg_args(at(j), at(j + 2)), lab: "from-bridge-vertex" });
+        if x.chance(0.3) { out.push(Q { op: 1, subj, idx: 0, args: seg_args(at(i), at(j)), lab: "bridge-copies" }); }
+    }
+    // a segment floating between two chord midpoints; a chord leaving the plane
+    if x.chance(0.5) { let (i, j, k) = (x.below(n as u64) as usize, x.below(n as u64) as usize, x.below(n as u64) as usize);
+        out.push(Q { op: 1, subj, idx: 0, args: seg_args(lerp3(at(i), at(j), 0.5), lerp3(at(j), at(k), 0.4)), lab: "floating" }); }
+    if x.chance(0.3) { let (i, j) = (x.below(n as u64) as usize, x.below(n as u64) as usize);
+        out.push(Q { op: 1, subj, idx: 0, args: seg_args(at(i), shift3(at(j), nrm, *x.pick(&[1e-6, 1e-3, 0.3]))), lab: "off-plane" }); }
+}
+/// segments for contains_segment of one loop (op 3) or of the polygon (op 4)
+fn contains_queries(x: &mut Rng, op: u32, subj: usize, l: &Loop3D, out: &mut Vec<Q>) {
+    let v = l.vertices(); let n = v.len();
+    if n == 0 { out.push(Q { op, subj, idx: 0, args: vec![0.0, 0.0, 0.0, 1.0, 0.0, 0.0], lab: "empty-loop" }); return; }
+    let at = |i: usize| v[i % n];
+    let i = x.below(n as u64) as usize; let (a, b) = (at(i), at(i + 1));
+    out.push(Q { op, subj, idx: 0, args: seg_args(a, b), lab: "edge" });
+    match x.below(5) {
+        0 => out.push(Q { op, subj, idx: 0, args: seg_args(b, a), lab: "edge-reversed" }),
+        1 => out.push(Q { op, subj, idx: 0, args: seg_args(a, at(i + 2)), lab: "corner-chord" }),
+        2 => { let e = *x.pick(&[1e-7, 5e-6, 0.99e-5, 1.01e-5, 1e-4]); out.push(Q { op, subj, idx: 0, args: seg_args(Point3D::new(a.x + e as Float, a.y, a.z), b), lab: "edge-perturbed" }) }
+        3 => out.push(Q { op, subj, idx: 0, args: seg_args(a, lerp3(a, b, 0.5)), lab: "half-edge" }),
+        _ => out.push(Q { op, subj, idx: 0, args: seg_args(at(n - 1), at(0)), lab: "closing-edge" }),
+    }
+}
+
+/// loops derived from the outline through the public API: a redundant vertex on an edge kept alive by a bump that is then removed
+/// (collinear run), a retraced spike, an outline left open, a closed loop that lost a corner, an opened loop
+fn derived_loops(x: &mut Rng, fr: &Frame, poly: &[P2], outer: &Loop3D) -> Vec<(Loop3D, String)> {
+    let mut d: Vec<(Loop3D, String)> = vec![];
+    let n = poly.len();
+    let k = x.below(n as u64) as usize;
+    let (a, c) = (poly[k], poly[(k + 1) % n]);
+    let (ex, ey) = (c.0 - a.0, c.1 - a.1); let el = (ex * ex + ey * ey).sqrt();
+    if el > 1e-3 {
+        let (nx, ny) = (-ey / el, ex / el);
+        let h = el * x.range(0.03, 0.12) * if x.chance(0.5) { 1.0 } else { -1.0 };
+        let bump = (a.0 + 0.25 * ex + h * nx, a.1 + 0.25 * ey + h * ny);
+        let b = (a.0 + 0.5 * ex, a.1 + 0.5 * ey);
+        let find = |l: &Loop3D, p: P2| -> Option<usize> { let q = fr.at(p.0, p.1); l.vertices().iter().position(|w| pf(*w) == pf(q)) };
+        // (i) collinear run a, b, c: closed and open
+        let mut enr: Vec<P2> = poly[..=k].to_vec(); enr.push(bump); enr.push(b); enr.extend_from_slice(&poly[k + 1..]);
+        for closed in [true, false] {
+            let l = if closed { make_loop(fr, &enr) } else { open_loop(fr, &enr) };
+            if let Some(mut l) = l { if let Some(i) = find(&l, bump) { if catch(AUS(|| l.remove(i))).is_ok() { d.push((l, format!("collinear-run:{}", if closed { "closed" } else { "open" }))); } } }
+        }
+        // (ii) retraced spike b -> s -> b (the second visit of b survives push because an auxiliary vertex y separates it from s)
+        let s = (b.0 - 2.0 * h * nx, b.1 - 2.0 * h * ny);
+        let y = (s.0 + 0.1 * ex, s.1 + 0.1 * ey);
+        let mut sp: Vec<P2> = poly[..=k].to_vec(); sp.push(b); sp.push(s); sp.push(y); sp.push(b); sp.extend_from_slice(&poly[k + 1..]);
+        for closed in [true, false] {
+            let l = if closed { make_loop(fr, &sp) } else { open_loop(fr, &sp) };
+            if let Some(mut l) = l { if let Some(i) = find(&l, y) { if catch(AUS(|| l.remove(i))).is_ok() { d.push((l, format!("spike:{}", if closed { "closed" } else { "open" }))); } } }
+        }
+    }
+    // (iii) a closed loop that lost a vertex (what from_polygon does to its working copy), and the outline opened again
+    if outer.len() >= 4 { let mut l = outer.clone(); let i = x.below(l.len() as u64) as usize; if catch(AUS(|| l.remove(i))).is_ok() { d.push((l, "corner-removed:closed".to_string())); } }
+    { let mut l = outer.clone(); l.open(); d.push((l, "opened".to_string())); }
+    d
+}
+
+/// the four groups of queries that follow a merge case
+fn c12_ops(sink: &mut Sink, x: &mut Rng, note: &str, fr: &Frame, poly: &[P2], outer: &Loop3D, holes: &[Loop3D], built: &C12Built) {
+    let nrm = built.pg.normal();
+    let derived = derived_loops(x, fr, poly, outer);
+    let mut short = Loop3D::new(); for p in outer.vertices().iter().take(2) { let _ = short.push(*p); }
+    // ---- group 1: is_diagonal on the outer loop, the closed merged outline, a closed loop that lost a corner, the open merged outline
+    {
+        let mut loops = vec![outer.clone()]; let mut labels = vec!["outer".to_string()];
+        if let Some(c) = &built.closed { if !holes.is_empty() { loops.push(c.clone()); labels.push("merged-closed".to_string()); } }
+        for (l, lab) in derived.iter() { if lab.starts_with("corner-removed") || (lab.starts_with("opened") && x.chance(0.3)) || (lab.starts_with("collinear-run:closed") && x.chance(0.5)) { loops.push(l.clone()); labels.push(lab.clone()); } }
+        if x.chance(0.1) { loops.push(Loop3D::new()); labels.push("empty".to_string()); }
+        if x.chance(0.1) { loops.push(short.clone()); labels.push("two-vertices".to_string()); }
+        let mut qs = vec![];
+        for (i, l) in loops.iter().enumerate() {
+            if l.is_empty() { qs.push(Q { op: 1, subj: i, idx: 0, args: vec![0.0, 0.0, 0.0, 1.0, 0.0, 0.0], lab: "empty-loop" }); continue; }
+            diagonal_queries(x, i, l, nrm, &mut qs);
+        }
+        ops_emit(sink, "is_diagonal", note, &loops, &labels, None, &qs);
+    }
+    // ---- group 2: sanitize
+    {
+        let mut loops = vec![outer.clone()]; let mut labels = vec!["outer".to_string()];
+        if let Some(c) = &built.closed { if !holes.is_empty() { loops.push(c.clone()); labels.push("merged-closed".to_string()); } }
+        if let Some(m) = &built.merged { if !holes.is_empty() { loops.push(m.clone()); labels.push("merged-open".to_string()); } }
+        for (l, lab) in derived.iter() { loops.push(l.clone()); labels.push(lab.clone()); }
+        if x.chance(0.15) { loops.push(Loop3D::new()); labels.push("empty".to_string()); }
+        if x.chance(0.15) { loops.push(short.clone()); labels.push("two-vertices".to_string()); }
+        let qs: Vec<Q> = (0..loops.len()).map(|i| Q { op: 2, subj: i, idx: 0, args: vec![], lab: "sanitize" }).collect();
+        ops_emit(sink, "sanitize", note, &loops, &labels, None, &qs);
+    }
+    // ---- group 3: contains_segment of loops and of the polygon; Polygon3D::inner
+    {
+        let mut loops = vec![outer.clone()]; let mut labels = vec!["outer".to_string()];
+        for (i, h) in holes.iter().enumerate() { loops.push(h.clone()); labels.push(format!("hole{}", i)); }
+        let nh = holes.len();
+        let mut qs = vec![];
+        for i in 0..loops.len() { contains_queries(x, 3, i, &loops[i], &mut qs); contains_queries(x, 4, i, &loops[i], &mut qs); }
+        // an edge of a hole is not an edge of the outer loop (op 3 on subject 0) but is one of the polygon (op 4)
+        if nh > 0 { let h = &loops[1]; let hv = h.vertices(); qs.push(Q { op: 3, subj: 0, idx: 0, args: seg_args(hv[0], hv[1]), lab: "hole-edge-vs-outer" }); }
+        for idx in [0, nh.saturating_sub(1), nh, nh + 2] { qs.push(Q { op: 10, subj: 0, idx, args: vec![], lab: if idx < nh { "inner:in-range" } else { "inner:out-of-range" } }); }
+        let extra = loops.len();
+        if x.chance(0.2) { loops.push(Loop3D::new()); labels.push("empty".to_string()); contains_queries(x, 3, extra, &loops[extra].clone(), &mut qs); }
+        ops_emit(sink, "contains_segment+inner", note, &loops, &labels, Some(&built.pg), &qs);
+    }
+    // ---- group 4: perimeter / area (closed: value, open: error), is_coplanar (incl. its two error classes), remove, index
+    {
+        let mut loops = vec![outer.clone()]; let mut labels = vec!["outer".to_string()];
+        if let Some(m) = &built.merged { loops.push(m.clone()); labels.push("merged-open".to_string()); }
+        if let Some(c) = &built.closed { loops.push(c.clone()); labels.push("merged-closed".to_string()); }
+        for (l, lab) in derived.iter() { if lab.starts_with("opened") || lab.starts_with("corner-removed") || x.chance(0.3) { loops.push(l.clone()); labels.push(lab.clone()); } }
+        loops.push(Loop3D::new()); labels.push("empty".to_string());
+        loops.push(short.clone()); labels.push("two-vertices".to_string());
+        let mut qs = vec![];
+        for (i, l) in loops.iter().enumerate() {
+            qs.push(Q { op: 5, subj: i, idx: 0, args: vec![], lab: if l.is_closed() { "closed" } else { "open" } });
+            qs.push(Q { op: 6, subj: i, idx: 0, args: vec![], lab: if l.is_closed() { "closed" } else { "open" } });
+            let n = l.len();
+            let base = if n > 0 { l.vertices()[x.below(n as u64) as usize] } else { Point3D::new(0.0, 0.0, 0.0) };
+            let h = *x.pick(&[0.0, 0.5e-7, 0.99e-7, 1.01e-7, 2e-7, 1e-3, 0.5]) * if x.chance(0.5) { 1.0 } else { -1.0 };
+            let q = if n >= 3 { let w = l.vertices()[x.below(n as u64) as usize]; lerp3(base, w, x.range(-0.5, 1.5)) } else { base };
+            let pt = shift3(q, nrm, h);
+            qs.push(Q { op: 7, subj: i, idx: 0, args: vec![pt.x, pt.y, pt.z], lab: if n == 0 { "no-vertices" } else if n < 3 { "no-normal" } else if h.abs() < 0.9e-7 { "in-plane" } else if h.abs() < 3e-7 { "boundary" } else { "off-plane" } });
+            if i < 3 || x.chance(0.4) {
+                let idx = match x.below(4) { 0 => n, 1 => n + 3, _ => x.below(n.max(1) as u64) as usize };
+                qs.push(Q { op: 8, subj: i, idx, args: vec![], lab: if idx < n { "in-range" } else { "out-of-range" } });
+                let idx = match x.below(4) { 0 => n, 1 => n + 3, _ => x.below(n.max(1) as u64) as usize };
+                qs.push(Q { op: 9, subj: i, idx, args: vec![], lab: if idx < n { "in-range" } else { "out-of-range" } });
+            }
+        }
+        ops_emit(sink, "getters+remove+index", note, &loops, &labels, None, &qs);
+    }
 }
 fn spec_pts(h: &HoleSpec) -> Vec<P2> { ngon(h.c, h.rad, &h.fac, h.phase, h.ccw, h.start) }
 
-pub fn run_c12(seed: u64, n: usize, out: &str) {
+pub fn run_c12(seed: u64, n: usize, out: &str, with_ops: bool) {
     let mut r = Rng::new(seed ^ 0xC12);
+    // the operation queries draw from their own generator state: the merge cases are the same with and without them
+    let mut x = Rng::new(seed ^ 0xC120B5);
+    let mut n_merge = 0usize;
     let mut sink = Sink::new(out, "C12", 25);
     // corpus first: the witness of the index defect (unit square, triangular hole wound like the outline), and the crate's test
     {
         let fr = Frame::xy();
         let outer = make_loop(&fr, &[(0.0, 0.0), (1.0, 0.0), (1.0, 1.0), (0.0, 1.0)]).unwrap();
         let h = make_loop(&fr, &[(0.3, 0.3), (0.6, 0.3), (0.45, 0.6)]).unwrap();
-        c12_emit(&mut sink, "corpus:F12-witness", &outer, &[h]);
+        let sq = [(0.0, 0.0), (1.0, 0.0), (1.0, 1.0), (0.0, 1.0)];
+        if let Some(b) = c12_emit(&mut sink, "corpus:F12-witness", &outer, &[h.clone()]) { n_merge += 1; if with_ops { c12_ops(&mut sink, &mut x, "corpus:F12-witness", &fr, &sq, &outer, &[h], &b); } }
         let outer = make_loop(&fr, &[(-2.0, -2.0), (6.0, -2.0), (6.0, 6.0), (-2.0, 6.0)]).unwrap();
         let h = make_loop(&fr, &[(-1.0, -1.0), (1.0, -1.0), (1.0, 1.0), (-1.0, 1.0)]).unwrap();
-        c12_emit(&mut sink, "corpus:crate-test", &outer, &[h]);
+        if c12_emit(&mut sink, "corpus:crate-test", &outer, &[h]).is_some() { n_merge += 1; }
     }
-    while sink.len() < n {
+    while n_merge < n {
         let fr = Frame::random(&mut r, 1000.0);
         let nmax = if r.chance(0.2) { 24 } else { 10 };
         let (poly, fam) = rand_outline(&mut r, nmax);
@@ -363,11 +589,17 @@ pub fn run_c12(seed: u64, n: usize, out: &str) {
             for ccw in [true, false] { for start in 0..k {
                 let mut sp = specs.clone(); sp[w].ccw = ccw; sp[w].start = start;
                 let hs: Option<Vec<Loop3D>> = sp.iter().map(|h| make_loop(&fr, &spec_pts(h))).collect();
-                if let Some(hs) = hs { c12_emit(&mut sink, &format!("{}:sweep{}", note, k), &outer, &hs); }
+                if let Some(hs) = hs { if c12_emit(&mut sink, &format!("{}:sweep{}", note, k), &outer, &hs).is_some() { n_merge += 1; } }
             } }
         } else {
             let hs: Option<Vec<Loop3D>> = specs.iter().map(|h| make_loop(&fr, &spec_pts(h))).collect();
-            if let Some(hs) = hs { c12_emit(&mut sink, &note, &outer, &hs); }
+            if let Some(hs) = hs {
+                if let Some(b) = c12_emit(&mut sink, &note, &outer, &hs) {
+                    n_merge += 1;
+                    // the other public operations of Loop3D / Polygon3D on (a third of) the same polygons
+                    if with_ops && x.chance(0.3) { c12_ops(&mut sink, &mut x, &note, &fr, &poly, &outer, &hs, &b); }
+                }
+            }
         }
     }
     sink.flush();
@@ -377,7 +609,7 @@ pub fn replay_c12(args: &[String]) {
     let mut hs = vec![];
     while off < args.len() { let (h, k) = bits_loop(&args[off..]); off += k; hs.push(h); }
     let mut sink = Sink::new("/dev/null", "C12", 1);
-    if !c12_emit(&mut sink, "replay", &outer, &hs) { println!("replay: the polygon could not be rebuilt (cut_hole refused)"); }
+    if c12_emit(&mut sink, "replay", &outer, &hs).is_none() { println!("replay: the polygon could not be rebuilt (cut_hole refused)"); }
     for j in &sink.json { println!("{}", j); }
 }
 
